@@ -4,20 +4,20 @@ From RecordUpdate Require Import RecordSet.
 Import RecordSetNotations.
 
 Section Reach.
-  Variables (f4 f14 f15 : bool) (ls : list label).
-  Let s := run (rinit f4 f14 f15) ls.
-  Let I : SInv s := reachable_sinv f4 f14 f15 ls.
+  Variables (f4 f14 f15 f16 : bool) (ls : list label).
+  Let s := run (rinit f4 f14 f15 f16) ls.
+  Let I : SInv s := reachable_sinv f4 f14 f15 f16 ls.
 
   (** Running() closed => every handler registered when Run's RunHandlers took the lock
       ([run_n] of them) has been subscribed - exactly once - and started *)
   Lemma running_after_all_subscribed :
     runningCh s = true ->
-    forall h, h < run_n s ->
+    forall h, h < run_n s -> h_removed (hs s h) = false ->
       h < nexth s /\ h_started (hs s h) = true /\ h_startedCh (hs s h) = true /\ h_subs (hs s h) = 1.
   Proof.
-    intros R h Hh. pose proof (i_running _ I R) as C.
+    intros R h Hh Rm. pose proof (i_running _ I R) as C.
     assert (RS : run_started (mainp s) = true) by (destruct (mainp s) as [| | | | | |[]]; simpl in *; congruence).
-    pose proof (i_run_all _ I RS h Hh) as St. pose proof (i_run_n_le _ I).
+    pose proof (i_run_all _ I RS h Hh Rm) as St. pose proof (i_run_n_le _ I).
     destruct (i_hrec _ I h). destruct (r_subs1 St). repeat split; auto. lia.
   Qed.
 
@@ -51,7 +51,7 @@ Section Reach.
     panicked s = false
     /\ (forall t t', thr_hl (thr s t) = true -> thr_hl (thr s t') = true -> t = t')
     /\ (forall t, thr_hl (thr s t) = true -> main_hl (mainp s) = false /\ wat_hl (wat s) = false)
-    /\ hwg s = cnt (fun h => pend (h_loop (hs s h))) (nexth s).
+    /\ hwg s = cnt (fun h => pendh (hs s h)) (nexth s).
   Proof.
     repeat split.
     - apply (i_nopanic _ I).
@@ -68,7 +68,7 @@ Proof.
 Qed.
 Lemma cl_fix4 s me p c s1 p' : cl_step s me p c = Some (s1, p') -> fix4 s1 = fix4 s.
 Proof.
-  unfold cl_step. intros X. destruct p, c; try discriminate X; destr X; injection X as <- _; simpl; first [reflexivity | assumption | congruence].
+  unfold cl_step, close_unstarted. intros X. destruct p, c; try discriminate X; destr X; injection X as <- _; simpl; first [reflexivity | assumption | congruence].
 Qed.
 Lemma fix4_step s l s' evs : step s l = Some (s', evs) -> fix4 s' = fix4 s.
 Proof.
@@ -87,14 +87,14 @@ Qed.
 (** D4 repaired: once Started() is closed, stopFn and stopped are assigned; a Stop called after
     Started() was observed returns normally; Stopped() is non-nil and closes only when the
     handler goroutine is done *)
-Lemma started_implies_stoppable f14 f15 ls :
-  let s := run (rinit true f14 f15) ls in
+Lemma started_implies_stoppable f14 f15 f16 ls :
+  let s := run (rinit true f14 f15 f16) ls in
   (forall h, h_startedCh (hs s h) = true ->
              h_started (hs s h) = true /\ h_stopFn (hs s h) = true /\ h_stoppedSet (hs s h) = true)
   /\ (forall t h r, thr s t = TStopDone h true r -> r = StopOk)
   /\ (forall h, h_stoppedCh (hs s h) = true <-> h_loop (hs s h) = LDone).
 Proof.
-  intros s. pose proof (reachable_sinv true f14 f15 ls) as I. fold s in I.
+  intros s. pose proof (reachable_sinv true f14 f15 f16 ls) as I. fold s in I.
   assert (F : fix4 s = true) by (subst s; now rewrite fix4_run).
   repeat split.
   - destruct (i_hrec _ I h). auto.
@@ -117,10 +117,12 @@ Proof.
 Qed.
 Lemma cl_frame s me p c s1 p' :
   cl_step s me p c = Some (s1, p') ->
-  pubClosed s1 = pubClosed s /\ cctx s1 = cctx s /\ rcancel s1 = rcancel s /\ hs s1 = hs s
+  pubClosed s1 = pubClosed s /\ cctx s1 = cctx s /\ rcancel s1 = rcancel s
+  /\ (forall h, h_subOpen (hs s1 h) = h_subOpen (hs s h))
   /\ (closingCh s = true -> closingCh s1 = true).
 Proof.
-  unfold cl_step. intros X. destruct p, c; try discriminate X; destr X; injection X as <- _; simpl; repeat split; auto.
+  unfold cl_step, close_unstarted. intros X. destruct p, c; try discriminate X; destr X; injection X as <- _; simpl;
+    repeat split; auto; intros h; destruct (removable (hs s h)); reflexivity.
 Qed.
 
 (** a Stop call on handler h changes nothing but h's own cancel flag *)
@@ -167,7 +169,7 @@ Proof.
   destruct l; unfold step in X; destr X; injection X as <- _; subst;
     repeat match goal with
            | E : rh_step _ _ _ _ _ = Some _ |- _ => apply rh_frame in E; destruct E as (_ & _ & _ & _ & E & _); specialize (E h P0)
-           | E : cl_step _ _ _ _ = Some _ |- _ => apply cl_frame in E; destruct E as (_ & _ & _ & E & _)
+           | E : cl_step _ _ _ _ = Some _ |- _ => apply cl_frame in E; destruct E as (_ & _ & _ & E & _); specialize (E h)
            end; simpl in *; try congruence;
     try (match goal with H : context [upd _ ?k _ h] |- _ => destruct (Nat.eq_dec h k) as [->|?];
            [rewrite ?upd_same in *|rewrite ?upd_other in * by assumption] end; simpl in *; try congruence).
@@ -181,12 +183,12 @@ Proof. intros E1 E2. simpl. rewrite E1, E2. discriminate. Qed.
 
 (** the WaitGroup part of self-close: once every added handler's goroutine has passed
     handlersWg.Done() the counter is zero and a watcher blocked in Wait() can continue *)
-Lemma all_ended_wg_zero f4 f14 f15 ls :
-  let s := run (rinit f4 f14 f15) ls in
-  (forall h, h < nexth s -> pend (h_loop (hs s h)) = false) ->
+Lemma all_ended_wg_zero f4 f14 f15 f16 ls :
+  let s := run (rinit f4 f14 f15 f16) ls in
+  (forall h, h < nexth s -> pendh (hs s h) = false) ->
   hwg s = 0 /\ (wat s = WWait -> step s (LWatch CStep) <> None).
 Proof.
-  intros s A. pose proof (reachable_sinv f4 f14 f15 ls) as I. fold s in I.
+  intros s A. pose proof (reachable_sinv f4 f14 f15 f16 ls) as I. fold s in I.
   assert (Z : hwg s = 0). { rewrite (i_cnt _ I). apply cnt_zero. exact A. }
   split; [exact Z|]. intros W. simpl. rewrite W, Z. discriminate.
 Qed.
